@@ -57,7 +57,7 @@ def run(run):
 
 def classify_static(f, s):
     d = s["def"]
-    ty = f.ty(s["ty"])
+    ty = anchors.peel_newtype(f, f.ty(s["ty"]))
     ts = ty.s
     if "__CALLSITE" in d or ts.startswith("tracing::") or ts.startswith("tracing_core::") or "tracing" in ts.split("<")[0]:
         return "tracing call-site metadata"
